@@ -375,6 +375,9 @@ class Evaluator:
             o = self.expr(t.value, env, fi)
             if isinstance(o, Obj):
                 o.fields[t.attr] = v
+            elif isinstance(o, Closure):
+                # metadata of a function object (__name__, __doc__, __qualname__ ...): kept, never read by the interpreted code paths
+                o.__dict__.setdefault("attrs", {})[t.attr] = v
             else:
                 raise Unsupported(f"attribute store on {type(o).__name__}")
         elif isinstance(t, ast.Starred):
